@@ -80,6 +80,11 @@ CLAIMED = {
     note="PARTIAL: pipe/epoll/tokio delivery is assumed (POSIX), the normalisations (lossy UTF-8, XML, ANSI) and combined capture are not checked. Trusted: Lean kernel; Model/Capture; event tap; scripted binary.",
     technique="Lean 4 proof (invariant over all schedules) + end-to-end correspondence",
     design="§5 C16"),
+ "C18": dict(
+    text="Lean 4 theorems on the setup-script model for EVERY set of definitions, rules, rule truth table and selection: a script runs iff it is defined and some rule listing it matches (platform and filter) a selected test (enabled_iff; nothing_selected_nothing_runs); run order is definition order (order_is_definition_order); an env file with a line lacking '=' or a key starting with NEXTEST yields no variable at all, and accepted files never contain a reserved key (nextest_keys_rejected, accepted_keys_not_reserved); a variable reaches a test iff a rule listing the writing script matches that test (env_scope, env_not_for_unmatched). Tied to the code end-to-end: the real cargo-nextest runs generated configurations (scripts defined in random order, 1-3 rules with filters/platforms, CLI filter, ignored tests, failing/malformed/reserved/slow scripts); the model's answer (enabled list, env-file verdicts, per-test variables) is compared with what the scripted processes record; monitors check serial execution, completion before the first test, no test after a failing script and exit status 105.",
+    note="PARTIAL: executor sequencing (serial, before tests) and the exit status are observed end-to-end, not proved; rule truth (platform/filter) is an input decided by C05/C06. Trusted: Lean kernel; Model/Scripts; scenario generator's independent rule truth; scripted binary.",
+    technique="Lean 4 proof (decision logic + induction over env-file lines) + end-to-end correspondence",
+    design="§5 C18"),
 }
 NOT_YET = "not yet claimed: model/theorems for this property are still being built (see DESIGN.md §5); no other technique is substituted"
 
